@@ -58,7 +58,7 @@ def rules(ctx: Ctx) -> None:
             v = prog.try_fold(n.comparators[0], esc.mod, esc)
             if isinstance(v, (list, tuple, set)):
                 table |= {x for x in v if isinstance(x, str)}
-    ctx.floor("members of the source-column segment type table", len(table), 8)
+    ctx.floor("members of the source-column segment type table", len(table), 6)
     ctx.extra["source_column_type_table"] = sorted(table)
     for t, what in sorted(REQUIRED_FORMS.items()):
         in_grammar = t in vocab
